@@ -87,6 +87,7 @@ func tasksOf(a *agent.Agent) string {
 }
 
 func (w *c05World) line(c *Ctx, in string) {
+	c.Pending(in)
 	parts := strings.Fields(in)
 	switch parts[0] {
 	case "reset":
